@@ -290,6 +290,7 @@ pub fn eval_v<A: HC>(v: &V) -> R<Seq<A>> {
             Seq::<A>::from_raw(*n, s.into_raw()).ok_or(Fail::NoneVal)?
         }
         V::FromWords(n, ws) => Seq::<A>::from_raw(*n, ws).ok_or(Fail::NoneVal)?,
+        V::FromArr(byval, s) => eval_s::<A, _>(s, &mut |x| A::fromarr_dispatch(*byval, x))?,
         V::VecWords(ws) => A::seq_from_vec_usize(ws.clone()).ok_or(Fail::Unsup)?,
         V::OfKmer(k, s) => eval_s::<A, _>(s, &mut |x| A::ofkmer_dispatch(*k, x))?,
     })
@@ -303,6 +304,7 @@ pub fn eval_s<A: HC, T>(s: &S, k: &mut dyn FnMut(&SeqSlice<A>) -> R<T>) -> R<T> 
         }
         S::Sl(f, a, b, inner) => eval_s::<A, T>(inner, &mut |x| k(index_form(x, *f, *a, *b))),
         S::Kd(kk, inner) => eval_s::<A, T>(inner, &mut |x| A::kd_dispatch(*kk, x, k)),
+        S::Arr(inner) => eval_s::<A, T>(inner, &mut |x| A::arr_dispatch(x, k)),
         S::Lit(id) => match crate::lits::lit::<A>(*id) {
             Some(l) => k(l),
             None => Err(Fail::Unsup),
